@@ -45,6 +45,12 @@ html_entities = {
     0x203A:         "&rsaquo;", # single right-pointing angle quotation mark, it is proposed but not yet ISO standardized
     0x20AC:         "&euro;",   # euro sign, U+20AC NEW
 }
+# XML predefines only &quot; &amp; &lt; &gt; (and &apos;): the HTML names of the other characters
+# are undefined entities for an XML parser, so they are written as numeric character references
+xml_entities = {
+    code: (entity if code in (0x22, 0x26, 0x3C, 0x3E) else f"&#{code};")
+    for code, entity in html_entities.items()
+}
 # **********************************************************************************************************************
 class n0dict_(n0dict__):
     # *************************************************************************
@@ -133,7 +139,7 @@ class n0dict_(n0dict__):
                             if value.lstrip().upper().startswith("<![CDATA[") and value.rstrip().endswith("]]>"):
                                 result += f"\n{' '*(indent+inc_indent)}{value}\n{' '*indent}"
                             else:
-                                result += value.translate(html_entities)
+                                result += value.translate(xml_entities)
                             result += f"</{key}>"
                         else:
                             raise NotImplementedError(f"Export of attibtures ({key}) is not supported yet")
